@@ -53,14 +53,15 @@ var wanted = map[string][]string{
 		"certificateMsg.unmarshal", "certificateRequestMsg.unmarshal", "serverKeyExchangeMsg.unmarshal",
 		"clientKeyExchangeMsg.unmarshal", "serverHelloDoneMsg.unmarshal",
 		"clientHelloMsg.marshalForCookie", "generateCookie", "verifyCookie",
-		"halfConn.explicitNonceLen", "Conn.maxPayloadSizeForWrite",
+		"halfConn.explicitNonceLen", "Conn.maxPayloadSizeForWrite", "Conn.setWriteSeq",
+		"RetransmitTimer.backoff", "RetransmitTimer.reset",
 	},
 	"tlcp": {
 		"extractPadding", "roundUp", "requiresClientCert", "supportedVersionsFromMax",
 		"tlcpIsCompleteMessage",
 		"certificateMsg.unmarshal", "certificateRequestMsg.unmarshal", "serverKeyExchangeMsg.unmarshal",
 		"clientKeyExchangeMsg.unmarshal", "serverHelloDoneMsg.unmarshal",
-		"halfConn.explicitNonceLen", "Conn.maxPayloadSizeForWrite",
+		"halfConn.explicitNonceLen", "Conn.maxPayloadSizeForWrite", "halfConn.incSeq",
 	},
 }
 
@@ -79,9 +80,13 @@ var hmac = struct{ New func(h func() goHash, key []byte) goHash }{}
 var sm3 = struct{ New func() goHash }{}
 var subtle = struct{ ConstantTimeCompare func(x, y []byte) int }{}
 
-// --- views: the part of the connection state the size arithmetic reads.  The field lists are
-// checked against the real struct declarations (checkViews); fields whose real type is a library
-// interface are replaced by a value that carries only what the arithmetic asks of it.
+`
+
+// viewStubs: per package, the part of the connection state the translated methods read.  The
+// field lists are checked against the real struct declarations (checkViews); fields whose real
+// type is a library interface are replaced by a value that carries only what is asked of it.
+var viewStubs = map[string]string{
+	"tlcp": `
 type Conn struct {
 	config      *Config
 	bytesSent   int64
@@ -90,11 +95,33 @@ type Conn struct {
 }
 type Config struct {
 	DynamicRecordSizingDisabled bool
-	PMTU                        int
 }
+` + viewCommon,
+	"dtlcp": `
+type Conn struct {
+	config     *Config
+	out        halfConn
+	writeEpoch uint16
+	writeSeq   uint48
+}
+type Config struct {
+	PMTU int
+}
+type RetransmitTimer struct {
+	initial time.Duration
+	current time.Duration
+	max     time.Duration
+	starts  int // stands for newTimer / handle: counts calls of start()
+}
+func (t *RetransmitTimer) start() { t.starts++ }
+` + viewCommon,
+}
+
+const viewCommon = `
 type halfConn struct {
 	cipher interface{} // nil, goStream, goAEAD or goCBC (the real dynamic types are library ciphers)
 	mac    goSized     // real type hash.Hash: only Size() is used
+	seq    [8]byte
 }
 type goSized struct{ size int }
 func (m goSized) Size() int { return m.size }
@@ -108,14 +135,14 @@ func (b goCBC) BlockSize() int { return b.blockSize }
 
 // viewStructs: stub structs standing for real ones, with the fields whose type is abstracted
 var viewStructs = map[string]map[string]bool{
-	"Conn":     {},
-	"Config":   {},
-	"halfConn": {"mac": true},
+	"Conn":            {},
+	"Config":          {},
+	"halfConn":        {"mac": true},
+	"RetransmitTimer": {"starts": true},
 }
 
 // viewOptional: stub fields that exist in only one of the packages
-var viewOptional = map[string]bool{"Config.PMTU": true, "Config.DynamicRecordSizingDisabled": true,
-	"Conn.bytesSent": true, "Conn.packetsSent": true}
+var viewOptional = map[string]bool{"RetransmitTimer.starts": true}
 
 // dynCases: type-switch case types (source text) -> the stub type that stands for them
 var dynCases = map[string]string{"cipher.Stream": "goStream", "cipher.AEAD": "goAEAD", "aead": "goAEAD", "cbcMode": "goCBC"}
@@ -196,7 +223,7 @@ func synth(d *decls, pkgName string, fns []string) (*token.FileSet, *ast.File, *
 	dropped := map[string]string{}
 	for round := 0; round < 200; round++ {
 		var buf bytes.Buffer
-		fmt.Fprintf(&buf, "package %s\n\nimport \"time\"\n\nvar _ = time.Now\n\n%s\n", pkgName, externStubs)
+		fmt.Fprintf(&buf, "package %s\n\nimport \"time\"\n\nvar _ = time.Now\n\n%s\n", pkgName, externStubs+viewStubs[pkgName])
 		for _, g := range genOrder {
 			printer.Fprint(&buf, d.fset, g)
 			buf.WriteString("\n\n")
@@ -327,9 +354,9 @@ func rewriteDynCases(src string) string {
 
 // checkViews compares the stub structs with the real declarations: every stub field must exist in
 // the real struct with the same type text unless it is listed as abstracted
-func checkViews(d *decls) error {
+func checkViews(d *decls, pkgName string) error {
 	fsetS := token.NewFileSet()
-	fS, err := parser.ParseFile(fsetS, "stubs.go", "package p\n"+externStubs, 0)
+	fS, err := parser.ParseFile(fsetS, "stubs.go", "package p\n"+viewStubs[pkgName], 0)
 	if err != nil {
 		return err
 	}
@@ -473,6 +500,8 @@ func (t *tr) leanType(ty types.Type) string {
 		}
 	case *types.Slice:
 		return "List (" + t.leanType(u.Elem()) + ")"
+	case *types.Array:
+		return "List (" + t.leanType(u.Elem()) + ")" // fixed length: see zero()
 	case *types.Pointer:
 		if n, ok := u.Elem().(*types.Named); ok {
 			if _, ok := n.Underlying().(*types.Struct); ok && n.Obj().Pkg() == t.pkg {
@@ -544,6 +573,8 @@ func (t *tr) zero(ty types.Type) string {
 		}
 	case *types.Slice:
 		return "[]"
+	case *types.Array:
+		return fmt.Sprintf("(List.replicate %d %s)", u.Len(), t.atomS(t.zero(u.Elem())))
 	case *types.Struct:
 		return "{}"
 	case *types.Pointer:
@@ -1239,12 +1270,13 @@ func (t *tr) assign(o *out, lhs ast.Expr, rhs string) {
 		if sel == nil || sel.Kind() != types.FieldVal {
 			bad("assignment to %s", t.src(l))
 		}
-		base, ok := l.X.(*ast.Ident)
-		if !ok {
-			bad("assignment to nested field %s", t.src(l))
+		if base, ok := l.X.(*ast.Ident); ok {
+			bobj := t.info.Uses[base]
+			t.emit(o, "%s := { %s with %s := %s }", t.name(bobj), t.name(bobj), sel.Obj().Name(), rhs)
+			return
 		}
-		bobj := t.info.Uses[base]
-		t.emit(o, "%s := { %s with %s := %s }", t.name(bobj), t.name(bobj), sel.Obj().Name(), rhs)
+		// a.b.c = v  ==>  a.b = { a.b with c := v }
+		t.assign(o, l.X, "{ "+t.expr(l.X)+" with "+sel.Obj().Name()+" := "+rhs+" }")
 	case *ast.IndexExpr:
 		// a[i] = v  with a a variable or a field of a variable
 		upd := t.act("Go.set " + t.atom(l.X) + " " + t.atomS(t.intOf(l.Index)) + " " + t.atomS(rhs))
@@ -1551,7 +1583,10 @@ func (t *tr) countingLoop(f *ast.ForStmt) (ok bool) {
 	}
 	cond, isB := f.Cond.(*ast.BinaryExpr)
 	inc, isInc := f.Post.(*ast.IncDecStmt)
-	return isB && cond.Op == token.LSS && isInc && inc.Tok == token.INC
+	if !isB || !isInc {
+		return false
+	}
+	return (cond.Op == token.LSS && inc.Tok == token.INC) || (cond.Op == token.GEQ && inc.Tok == token.DEC)
 }
 
 // generalLoop: `for cond { body }` (also with init / post).  Lean needs a bound: the loop runs
@@ -1694,15 +1729,19 @@ func (t *tr) forStmt(o *out, f *ast.ForStmt) {
 		bad("loop variable %s is not an int", iv.Name)
 	}
 	cond, ok := f.Cond.(*ast.BinaryExpr)
-	if !ok || cond.Op != token.LSS {
-		bad("for loop condition is not `i < b`")
+	if !ok || (cond.Op != token.LSS && cond.Op != token.GEQ) {
+		bad("for loop condition is not `i < b` / `i >= b`")
 	}
 	if id, ok := cond.X.(*ast.Ident); !ok || t.info.Uses[id] != iobj {
 		bad("for loop condition is not `i < b`")
 	}
 	inc, ok := f.Post.(*ast.IncDecStmt)
-	if !ok || inc.Tok != token.INC {
-		bad("for loop post statement is not `i++`")
+	if !ok {
+		bad("for loop post statement is not `i++` / `i--`")
+	}
+	down := cond.Op == token.GEQ
+	if down != (inc.Tok == token.DEC) {
+		bad("for loop direction")
 	}
 	if id, ok := inc.X.(*ast.Ident); !ok || t.info.Uses[id] != iobj {
 		bad("for loop post statement is not `i++`")
@@ -1740,6 +1779,15 @@ func (t *tr) forStmt(o *out, f *ast.ForStmt) {
 	}
 	a, b := t.expr(as.Rhs[0]), t.expr(cond.Y)
 	k := t.name(iobj) + "'k"
+	if down {
+		// for i := a; i >= b; i-- : a - b + 1 iterations (none when a < b), i = a - k
+		t.emit(o, "for %s in List.range (%s - %s + 1).toNat do", k, a, b)
+		o.indent++
+		t.emit(o, "let %s : Int := %s - (%s : Int)", t.name(iobj), a, k)
+		t.stmts(o, f.Body.List)
+		o.indent--
+		return
+	}
 	if a == "(0 : Int)" {
 		t.emit(o, "for %s in List.range (%s).toNat do", k, b)
 		o.indent++
@@ -2191,10 +2239,10 @@ func translatePackage(repo, name string, w *strings.Builder, untranslated *[]str
 		fail(err.Error())
 		return
 	}
-	viewErr := checkViews(d)
+	viewErr := checkViews(d, name)
 	var present []string
 	for _, fn := range wanted[name] {
-		if viewErr != nil && (strings.HasPrefix(fn, "Conn.") || strings.HasPrefix(fn, "halfConn.")) {
+		if viewErr != nil && (strings.HasPrefix(fn, "Conn.") || strings.HasPrefix(fn, "halfConn.") || strings.HasPrefix(fn, "RetransmitTimer.")) {
 			*untranslated = append(*untranslated, name+"."+fn)
 			fmt.Fprintf(w, "-- %s not translated: %v\n\n", fn, viewErr)
 			continue
